@@ -146,6 +146,7 @@ class Engine:
         self.dyntype = z3.Function("dyntype", S.RefS, z3.IntSort())
         self.ufuncs = {}
         self.static_helpers = set()
+        self.loops_seen = {}
         self.axioms_cache = None
         self.proved_lemmas = []  # z3 formulas usable as axioms
         self.extra_axioms = {}  # axioms of builtin summaries, added on first use
@@ -1190,6 +1191,10 @@ class Interp:
         fs = self.cur_fs
         k = self.loopnum.get(id(s))
         invs = fs.invariants.get(k, []) if fs and k is not None else []
+        if not self.frames and self.fs is not None and self.fs.kind != "lemma":
+            # which loops of the unit are cut with declared invariants (the verdict policy distrusts unreplayed refutations of a unit whose
+            # code changed and that has a loop the contract says nothing about)
+            self.eng.loops_seen.setdefault(self.fname, {})[str(k)] = bool(invs)
         dec_expr = fs.decreases.get(k) if fs and k is not None else None
         idx_name = (fs.loop_index.get(k) if fs and k is not None else None) or f"_i{k}"
         tag = f"loop{k}"
